@@ -230,7 +230,7 @@ fn judge(f: &Fault, mode: Mode, m: &Mutated, msgs: &[String], panic: &Option<Str
     }
     if f.scope.active(mode) {
         if !family_hit(msgs, f.families, m.site_offset) {
-            let near: Vec<&String> = msgs.iter().take(4).collect();
+            let near: Vec<String> = msgs.iter().take(4).map(|m| m.lines().next().unwrap_or("").chars().take(160).collect()).collect();
             return Some((
                 format!("missed:{}:{}", f.name, mode.name().replace(' ', "-")),
                 format!("no {:?} message at {:#x} for [{}] in mode {}; messages: {:?}", f.families, m.site_offset, m.desc, mode.name(), near),
